@@ -412,3 +412,94 @@ def flattened_paths_from_group_returns_the_leaves_below_the_group(c, tree, recur
         segs = list(c.items(mine[0]))
         c.ensures('leaf-%d-geometry-mapped-by-all-ancestors-from-the-root' % k, len(segs) == 1 and
                   ops.And(ops.eq(c.get(segs[0], 'start'), affine(M, a)), ops.eq(c.get(segs[0], 'end'), affine(M, b))))
+
+
+# ------------------------------------------------------------------------------- svg2paths
+# assumed model of xml.dom.minidom (listed): parse(file) gives a document whose
+# getElementsByTagName(tag) yields the elements with that tag in document order, each with an
+# `attributes` mapping name -> node with `.value`; unlink() does nothing observable.
+
+def _minidom_doc(c, elements):
+    """elements: list of (tag, {attr: value}) in document order"""
+    from pyvc import interp as I
+
+    def m(fn):
+        b = I.Builtin(fn.__name__, fn)
+        b.is_method = True
+        return b
+    attr_cls = I.ClassV('Attr', [], {}, 'xml.dom.minidom.Attr')
+    el_cls = I.ClassV('Element', [], {}, 'xml.dom.minidom.Element')
+    els = []
+    for tag, attrs in elements:
+        e = I.Obj(el_cls)
+        nodes = {}
+        for k, v in attrs.items():
+            a = I.Obj(attr_cls)
+            a.attrs['value'] = v
+            nodes[k] = a
+        e.attrs.update(tagName=tag, attributes=nodes)
+        els.append(e)
+    state = {'unlinked': 0}
+
+    def getElementsByTagName(ip, a, k):
+        return [e for e in els if e.attrs['tagName'] == a[1]]
+
+    def unlink(ip, a, k):
+        state['unlinked'] += 1
+    doc_cls = I.ClassV('Document', [], {'getElementsByTagName': m(getElementsByTagName), 'unlink': m(unlink)}, 'xml.dom.minidom.Document')
+    doc = I.Obj(doc_cls)
+    file_cls = I.ClassV('File', [], {}, 'io.File')
+    handle = I.Obj(file_cls)
+    c.set_global('svg_to_paths.parse', I.Builtin('parse(model)', lambda ip, a, k: doc if a[0] is handle else ip.raise_py('ValueError', 'not the file')))
+    return handle, els, state
+
+
+SVG2PATHS_FLAGS = ['convert_circles_to_paths', 'convert_ellipses_to_paths', 'convert_lines_to_paths', 'convert_polylines_to_paths',
+                   'convert_polygons_to_paths', 'convert_rectangles_to_paths']
+
+
+@contract('C17', 'svg_to_paths.svg2paths', params=[{'off': f, '_no_bounded': True} for f in [None] + SVG2PATHS_FLAGS], level='per-shape')
+def svg2paths_converts_every_kind_it_is_asked_to(c, off):
+    """one element of every kind, interleaved in the document: the result holds the path elements
+    first and then the converted shapes kind by kind (polylines, polygons, lines, ellipses,
+    circles, rects), each parsed from the d-string its converter gives, with the element's own
+    attribute dictionary at the same index; a kind whose flag is off is left out"""
+    from contracts.c01 import _install_lex
+    _install_lex(c)
+    made = {}
+
+    def conv(name):
+        def f(ip, fn, a, k):
+            made[name] = a[0]
+            return 'D:' + name
+        return f
+    for name in ('polyline2pathd', 'polygon2pathd', 'ellipse2pathd', 'rect2pathd'):
+        c.ip.summaries['svg_to_paths.' + name] = conv(name)
+    parsed = []
+
+    def parse_path(ip, fn, a, k):
+        parsed.append(a[0])
+        return ('PATH', a[0])
+    c.ip.summaries['parser.parse_path'] = parse_path
+    elements = [('rect', {'x': '1', 'id': 'r'}), ('path', {'d': 'Dpath0', 'id': 'p0'}), ('circle', {'r': '2', 'id': 'c'}), ('line', {'x1': 'X1', 'y1': 'Y1', 'x2': 'X2', 'y2': 'Y2', 'id': 'l'}),
+                ('polygon', {'points': 'pg', 'id': 'pg'}), ('ellipse', {'rx': '3', 'id': 'e'}), ('path', {'d': 'Dpath1', 'id': 'p1'}), ('polyline', {'points': 'pl', 'id': 'pl'})]
+    handle, els, state = _minidom_doc(c, elements)
+    kw = {off: False} if off else {}
+    paths, attrs = c.items(c.call('svg_to_paths.svg2paths', handle, **kw))
+    paths, attrs = list(c.items(paths)), list(c.items(attrs))
+    order = [('path', 'p0', 'Dpath0'), ('path', 'p1', 'Dpath1'), ('polyline', 'pl', 'D:polyline2pathd'), ('polygon', 'pg', 'D:polygon2pathd'),
+             ('line', 'l', None), ('ellipse', 'e', 'D:ellipse2pathd'), ('circle', 'c', 'D:ellipse2pathd'), ('rect', 'r', 'D:rect2pathd')]
+    skip = {'convert_circles_to_paths': 'circle', 'convert_ellipses_to_paths': 'ellipse', 'convert_lines_to_paths': 'line',
+            'convert_polylines_to_paths': 'polyline', 'convert_polygons_to_paths': 'polygon', 'convert_rectangles_to_paths': 'rect'}.get(off)
+    want = [o for o in order if o[0] != skip]
+    c.ensures('one-path-and-one-attribute-dictionary-per-requested-element', len(paths) == len(want) and len(attrs) == len(want))
+    if len(paths) != len(want) or len(attrs) != len(want):
+        return
+    for k, (tag, ident, d) in enumerate(want):
+        c.ensures('element-%d-is-%s#%s-with-its-own-attributes' % (k, tag, ident), attrs[k].get('id') == ident)
+        if d is not None:
+            c.ensures('element-%d-parsed-from-its-converter' % k, paths[k] == ('PATH', d))
+        else:
+            got = paths[k][1] if isinstance(paths[k], tuple) else None
+            c.ensures('line-element-is-M-x1-y1-L-x2-y2', got is not None and str(got).replace(' ', '') == 'MX1Y1LX2Y2')
+    c.ensures('document-is-released', state['unlinked'] == 1)
